@@ -158,6 +158,10 @@ type ringCtx struct {
 	guards map[string]bool
 	depth  int
 	tooBig bool
+	// F-sorted conditionals: with a choice for the condition the chosen branch is expanded under that
+	// guard; without one the conditional is an atom and its condition is recorded in seen
+	choice map[string]bool
+	seen   map[string]bool
 }
 
 func isAlgHead(h string) bool {
@@ -201,6 +205,22 @@ func (rc *ringCtx) polyOf(n *sx) poly {
 		p = pneg(rc.polyOf(n.kids[1]))
 	case "fmul":
 		p = pmul(rc.polyOf(n.kids[1]), rc.polyOf(n.kids[2]))
+	case "ite":
+		if len(n.kids) == 4 {
+			c := n.kids[1].String()
+			if v, ok := rc.choice[c]; ok {
+				if v {
+					rc.guards[c] = true
+					return rc.polyOf(n.kids[2])
+				}
+				rc.guards[sNot(c)] = true
+				return rc.polyOf(n.kids[3])
+			}
+			if rc.seen != nil {
+				rc.seen[c] = true
+			}
+		}
+		return patom(rc.normAtom(n))
 	case "ofInt":
 		if len(n.kids) == 2 && n.kids[1].kids == nil {
 			if v, ok := new(big.Int).SetString(n.kids[1].atom, 10); ok {
@@ -212,6 +232,10 @@ func (rc *ringCtx) polyOf(n *sx) poly {
 		}
 		return patom(n.String())
 	default:
+		// a cell of a zero-initialised row
+		if n.head() == "select" && len(n.kids) == 3 && n.kids[1].String() == "((as const (Array Int F)) f0)" {
+			return poly{}
+		}
 		// non-algebraic application: an atom whose F-arguments are themselves normalised
 		a := rc.normAtom(n)
 		if d, ok := rc.vc.fdefs[a]; ok && rc.depth < 60 {
@@ -234,6 +258,14 @@ func (rc *ringCtx) polyOf(n *sx) poly {
 // normAtom prints a non-algebraic term with its algebraic sub-terms in normal form
 func (rc *ringCtx) normAtom(n *sx) string {
 	if n.kids == nil {
+		// integer names bound to a term (slot arithmetic): print the definition, so that the same cell has
+		// the same text wherever it is mentioned
+		if d, ok := rc.vc.defOf[n.atom]; ok && rc.depth < 60 && rc.vc.declared[n.atom] == string(SInt) {
+			rc.depth++
+			r := rc.normAtom(parseSx(d))
+			rc.depth--
+			return r
+		}
 		return n.atom
 	}
 	h := n.head()
@@ -336,12 +368,13 @@ func (vc *VC) ringLemmas(f string) {
 			continue
 		}
 		vc.ringDone[s] = true
-		rc := &ringCtx{vc: vc, guards: map[string]bool{}}
+		rc := &ringCtx{vc: vc, guards: map[string]bool{}, seen: map[string]bool{}}
 		p := rc.polyOf(t)
 		if rc.tooBig {
 			continue
 		}
 		nf := polyTerm(p)
+		vc.ringCases(t, s, rc.seen)
 		if nf == s {
 			continue
 		}
@@ -354,6 +387,7 @@ func (vc *VC) ringLemmas(f string) {
 		vc.ringNF[s] = nf
 		vc.inverseLemmas(p, nf, gs)
 		vc.namedDivisionLemmas(p, nf, gs)
+		vc.ruleLemmas(p, nf, gs)
 	}
 }
 
@@ -486,6 +520,7 @@ func (vc *VC) noteDefs(f, guard string) {
 		case "=":
 			if len(n.kids) == 3 {
 				a, b := n.kids[1], n.kids[2]
+				vc.noteRule(n.kids[1], n.kids[2], guard)
 				if b.kids == nil && a.kids != nil {
 					a, b = b, a
 				}
@@ -593,6 +628,167 @@ func (vc *VC) namedDivisionLemmas(p poly, nf string, guards []string) {
 		vc.emit(fmt.Sprintf("(assert (= %s %s))", app("fadd", "f0", rt), rt))
 		n++
 		if n > 6 {
+			break
+		}
+	}
+}
+
+// ringCases: normal forms of a term under every choice of the (few) conditions of the F-sorted
+// conditionals it reaches through definitions (denotations of frontend.Variable are conditionals on the
+// dynamic type); each lemma is guarded by its choice.
+func (vc *VC) ringCases(t *sx, s string, seen map[string]bool) {
+	if len(seen) == 0 || len(seen) > 5 {
+		return
+	}
+	var conds []string
+	for c := range seen {
+		conds = append(conds, c)
+	}
+	sort.Strings(conds)
+	for mask := 0; mask < 1<<len(conds); mask++ {
+		rc := &ringCtx{vc: vc, guards: map[string]bool{}, choice: map[string]bool{}, seen: map[string]bool{}}
+		for i, c := range conds {
+			rc.choice[c] = mask&(1<<i) != 0
+		}
+		p := rc.polyOf(t)
+		if rc.tooBig {
+			continue
+		}
+		nf := polyTerm(p)
+		if nf == s {
+			continue
+		}
+		var gs []string
+		for g := range rc.guards {
+			gs = append(gs, g)
+		}
+		sort.Strings(gs)
+		vc.emit(fmt.Sprintf("(assert %s) ; ring normal form by cases", sImp(sAnd(gs...), sEq(s, nf))))
+		vc.ruleLemmas(p, nf, gs)
+	}
+}
+
+// ---------------------------------------------------------------------------
+// known polynomial equalities as division rules: an asserted equality A = B between products/sums (a
+// callee's postcondition such as r*x = 1, a gate) gives the polynomial D = A - B = 0; a later term whose
+// polynomial is q*D + r then equals r. Both steps are ring identities; the solver only has to use D = 0.
+
+type ringRule struct {
+	d      poly
+	dTerm  string
+	guards []string
+}
+
+func fAlg(n *sx) bool {
+	if n.kids == nil {
+		return n.atom == "f0" || n.atom == "f1"
+	}
+	return isAlgHead(n.head())
+}
+
+func (vc *VC) noteRule(a, b *sx, guard string) {
+	if !(fAlg(a) || fAlg(b)) || len(vc.rules) > 40 {
+		return
+	}
+	for _, x := range []*sx{a, b} {
+		if x.kids == nil && vc.isFresh[x.atom] {
+			return // a definition of a name, not a fact
+		}
+	}
+	// at least one side must be a product or sum (definitions of names are handled by fdefs)
+	if !(a.kids != nil && (a.head() == "fmul" || a.head() == "fadd" || a.head() == "fsub")) && !(b.kids != nil && (b.head() == "fmul" || b.head() == "fadd" || b.head() == "fsub")) {
+		return
+	}
+	key := a.String() + "=" + b.String()
+	if vc.ruleSeen == nil {
+		vc.ruleSeen = map[string]bool{}
+	}
+	if vc.ruleSeen[key] {
+		return
+	}
+	vc.ruleSeen[key] = true
+	add := func(choice map[string]bool) map[string]bool {
+		rc := &ringCtx{vc: vc, guards: map[string]bool{}, choice: choice, seen: map[string]bool{}}
+		d := padd(rc.polyOf(a), pneg(rc.polyOf(b)))
+		if rc.tooBig || len(d) < 2 || len(d) > 8 {
+			return rc.seen
+		}
+		var gs []string
+		if guard != "true" && guard != "" {
+			gs = append(gs, guard)
+		}
+		for g := range rc.guards {
+			gs = append(gs, g)
+		}
+		sort.Strings(gs)
+		dt := polyTerm(d)
+		// D = 0 is a ring consequence of A = B
+		vc.emit(fmt.Sprintf("(assert %s) ; polynomial of a known equality", sImp(sAnd(append(gs, sEq(a.String(), b.String()))...), sEq(dt, "f0"))))
+		vc.rules = append(vc.rules, ringRule{d: d, dTerm: dt, guards: gs})
+		return rc.seen
+	}
+	seen := add(map[string]bool{})
+	if len(seen) > 0 && len(seen) <= 3 {
+		var conds []string
+		for c := range seen {
+			conds = append(conds, c)
+		}
+		sort.Strings(conds)
+		for mask := 0; mask < 1<<len(conds); mask++ {
+			ch := map[string]bool{}
+			for i, c := range conds {
+				ch[c] = mask&(1<<i) != 0
+			}
+			add(ch)
+		}
+	}
+}
+
+type normTerm struct {
+	p      poly
+	nf     string
+	guards []string
+}
+
+// sweepRules applies the rules found so far to every term normalised so far (a rule may be learnt after
+// the term it rewrites was first seen, e.g. a lemma instance stated at entry and a gate emitted later)
+func (vc *VC) sweepRules() {
+	if len(vc.rules) == vc.rulesSwept && len(vc.normTerms) == vc.termsSwept {
+		return
+	}
+	vc.rulesSwept, vc.termsSwept = len(vc.rules), len(vc.normTerms)
+	vc.sweeping = true
+	for _, t := range vc.normTerms {
+		vc.ruleLemmas(t.p, t.nf, t.guards)
+	}
+	vc.sweeping = false
+}
+
+func (vc *VC) ruleLemmas(p poly, nf string, guards []string) {
+	if len(p) == 0 {
+		return
+	}
+	if !vc.sweeping && len(vc.normTerms) < 300 {
+		vc.normTerms = append(vc.normTerms, normTerm{p, nf, guards})
+	}
+	n := 0
+	for _, r := range vc.rules {
+		q, rem, ok := pdivide(p, r.d)
+		if !ok || len(q) == 0 || len(rem) > len(p) {
+			continue
+		}
+		gs := append(append([]string{}, guards...), r.guards...)
+		sort.Strings(gs)
+		qt, rt := polyTerm(q), polyTerm(rem)
+		key := nf + "/" + r.dTerm
+		if vc.ruleSeen[key] {
+			continue
+		}
+		vc.ruleSeen[key] = true
+		vc.emit(fmt.Sprintf("(assert %s) ; division by a known equality", sImp(sAnd(gs...), sEq(nf, app("fadd", app("fmul", qt, r.dTerm), rt)))))
+		vc.emit(fmt.Sprintf("(assert (= %s %s))", app("fadd", "f0", rt), rt))
+		n++
+		if n > 8 {
 			break
 		}
 	}
